@@ -33,6 +33,8 @@ class C04(Property):
             spec = gen_coupling.gen_dag(rnd, cycle=None, pull_prob=0.5)
             spec["meta"].update(expect="ok", klass="acyclic")
             return spec
+        if i % 12 == 7:
+            return gen_coupling.gen_ring(rnd, pull_prob=0.0, meta_cycle=True)
         return gen_coupling.gen_ring(rnd)
 
     def run(self, spec):
@@ -76,7 +78,7 @@ class C04(Property):
         return out
 
     def coverage_gaps(self, counters, tier):
-        need = ["class_none", "class_sufficient", "class_between", "class_acyclic", "circular_reported", "completed_clean",
+        need = ["class_none", "class_sufficient", "class_between", "class_acyclic", "class_meta_cycle", "circular_reported", "completed_clean",
                 "rings_with_pull_based_components"]
         return [f"{k} never observed" for k in need if not counters.get(k)]
 
